@@ -181,7 +181,7 @@ func c09Cliques(N int) {
 	rt.Reach("end")
 }
 
-func H_c09_cliques_q() { c09Cliques(4) }
+func H_c09_cliques_q() { c09Cliques(5) }
 func H_c09_cliques_t() { c09Cliques(6) }
 
 func c09Proper(adj [][]bool, c []int) bool {
